@@ -7,6 +7,7 @@ CONSTANTS
   KeyFields = {"grid", "mode", "k", "expansion", "ncrit"}
   Orders = {2, 4}
   Depths = {3, 4}
+  MaxSteps = 5
 INVARIANT IndexMapsSound
 INVARIANT CacheSound
 CHECK_DEADLOCK FALSE
